@@ -59,6 +59,12 @@ int snoopy_datasource_env_all (char * const resultBuf, size_t resultBufSize, __a
 {
     int resultSize = 0; // Current size of message to be returned back - does not include trailing null character
 
+    // Environment may be absent altogether (i.e. after clearenv())
+    resultBuf[0] = '\0';
+    if (NULL == environ) {
+        return 0;
+    }
+
     // Loop through all environmental variables
     char *envItem = *environ; // Get first environmental variable
     int i = 0;
